@@ -135,6 +135,10 @@ def gen_cases(tier, seed):
         cases.append({'kind': 'reiterate', 'executor': ['thread', 'thread', 'async', 'process'][i % 4], 'first': ['break', 'close', 'worker-raises', 'complete'][(i // 4) % 4],
                       'n': rng.choice([6, 25]) if i % 4 != 3 else 8, 'concurrency': rng.choice([1, 2, 4]), 'return_x': rng.random() < 0.5,
                       'return_exceptions': rng.random() < 0.5, 'seed': rng.randrange(1 << 30)})
+    # (g) worker keyword arguments named like the feeder's own variables
+    for ex in ('thread', 'async', 'astream-thread', 'astream-async'):
+        for kwname in ('q', 'to_stop', 'tasks', 'fut', 'xx', 'preprocess'):  # not the documented parameter names (func, instream, executor ...): those collide by Python's own rules
+            cases.append({'kind': 'kwnames', 'executor': ex, 'kwname': kwname, 'seed': 0})
     # (f) element values: None / falsy / empty at the first position (and elsewhere), every executor kind
     for ex in ('thread', 'process', 'async'):
         for k in range(10):
@@ -348,6 +352,50 @@ def run_case(case):
         sigs.append(hash(('async', case['seed'])) & 0xFFFFFFFFFFFF)
         sample = {'kind': 'async', 'n': n, 'concurrency': case['concurrency'], 'outputs': len(out)}
 
+    elif kind == 'kwnames':
+        # keyword arguments for the worker function (passed through parmap's **kwargs) that are named like the feeder's own variables
+        import asyncio as _asyncio
+
+        import mpservice.streamer._streamer_async as SA
+        from vlib import targets
+
+        kwargs = {case['kwname']: 5}
+        items = [1, 2, 3, 4]
+        exp = [targets.kw_work(x, **kwargs) for x in items]
+        ex = case['executor']
+
+        def run():
+            if ex == 'thread':
+                return list(S.Stream(items).parmap(targets.kw_work, executor='thread', concurrency=2, **kwargs))
+            if ex == 'async':
+                return list(S.Stream(items).parmap(targets.kw_work_async, concurrency=2, **kwargs))
+
+            async def amain():
+                async def src():
+                    for z in items:
+                        yield z
+
+                if ex == 'astream-thread':
+                    return [z async for z in SA.AsyncStream(src()).parmap(targets.kw_work, executor='thread', concurrency=2, **kwargs)]
+                return [z async for z in SA.AsyncStream(src()).parmap(targets.kw_work_async, concurrency=2, **kwargs)]
+
+            return _asyncio.run(amain())
+
+        out, term = [], None
+        try:
+            out = watch.run_bounded(run, 20, 'parmap with worker kwargs')
+        except watch.Hang as h:
+            viol.append({'mech': f'parmap-{ex}/hang', 'msg': f'parmap(f, {case["kwname"]}=5) (a keyword argument for f) did not finish', 'stacks': h.stacks})
+            return {'violations': viol, 'obs': obs, 'exit_after': True}
+        except Exception as e:  # noqa: BLE001
+            term = e
+        if term is not None or out != exp:
+            viol.append({'mech': f'parmap-{ex}/worker-kwarg-collides-with-internal-name', 'msg': f'parmap(f, {case["kwname"]}=5): ' + (f'raised {term!r}' if term is not None else f'got {out!r}') + f'; expected f(x, {case["kwname"]}=5) for every x'})
+        obs['runs'] = 1
+        obs['kwname_runs'] = 1
+        obs['outputs_checked'] = len(out)
+        sigs.append(hash(('kwnames', ex, case['kwname'])) & 0xFFFFFFFFFFFF)
+        sample = {'kind': 'kwnames', 'executor': ex, 'kwname': case['kwname'], 'outputs': len(out)}
     elif kind == 'values':
         # element VALUES an implementation might take for "nothing": None / falsy / empty, at the first, a middle and the last position
         from vlib import targets
